@@ -264,7 +264,86 @@ def run_ref_hold(run, P, only=None):
         if only and f['name'] not in only:
             continue
         analyze(f, report=True)
+    run.rawfree = dict(rawfree)
     return H
+
+
+def run_ref_stale(run, P):
+    """R-REF-HOLD (stale): after coap_session_release_lkd(X->session) on a reference holder X (queue node, subscription, async entry) the
+    holder no longer owns a reference.  On every path from there to the end of the function the field is overwritten (NULL or a new reference)
+    or X is freed raw (coap_free_type / a helper that frees its parameter without releasing).  A holder that stays alive with the old
+    pointer in place is released a second time by its destructor: the session loses a reference somebody else owns."""
+    run.rule('R-REF-HOLD')
+    H, _sites = holders(P)
+    rawfree = getattr(run, 'rawfree', {})
+    n = 0
+    for f in sorted(P.lib_funcs(), key=lambda f: f['name']):
+        name = f['name']
+        rels = []
+        for b, ev in P.events(f):
+            t = ev['e']
+            if t.get('k') == 'call' and t.get('fn') == REL and t.get('a'):
+                a = strip(t['a'][0])
+                if isinstance(a, dict) and a.get('k') == 'mem' and a.get('rec') in H and a['f'] in H[a['rec']] and ap(a) and ap(a.get('b')):
+                    rels.append((ev, ap(a), ap(a['b'])))
+        if not rels:
+            continue
+        paths = set(r[1] for r in rels)
+        bases = set(r[2] for r in rels)
+
+        def frees(t):
+            fn = t.get('fn')
+            out = []
+            if fn == FREE and len(t.get('a') or []) > 1 and ap(t['a'][1]) in bases:
+                out.append(ap(t['a'][1]))
+            if fn in rawfree:
+                for i in rawfree[fn]:
+                    if i < len(t['a']) and ap(t['a'][i]) in bases:
+                        out.append(ap(t['a'][i]))
+            return out
+
+        def is_rule_event(ev):
+            t = ev['e']
+            if any(ev is r[0] for r in rels):
+                return True
+            if t.get('k') == 'call' and frees(t):
+                return True
+            return t.get('k') == 'asg' and ap(t['l']) in (paths | bases)
+        keys, R = relevance(f, is_rule_event)
+
+        def on_event(ev, env, ctx):
+            t = ev['e']
+            for r in rels:
+                if ev is r[0]:
+                    e = apply_generic(ev, env, R).copy()
+                    e.ts['stale'] = tuple(sorted(set(env.ts.get('stale', ())) | {(r[1], r[2], ev['loc'])}))
+                    return [e]
+            st = env.ts.get('stale', ())
+            if not st:
+                return None
+            if t.get('k') == 'call':
+                fr = frees(t)
+                if fr:
+                    e = apply_generic(ev, env, R).copy()
+                    e.ts['stale'] = tuple(x for x in st if x[1] not in fr)
+                    return [e]
+            if t.get('k') == 'asg' and (ap(t['l']) in paths or ap(t['l']) in bases):
+                e = apply_generic(ev, env, R).copy()
+                e.ts['stale'] = tuple(x for x in st if x[0] != ap(t['l']) and x[1] != ap(t['l']))
+                return [e]
+            return None
+
+        def on_exit(env, ctx):
+            for pth, base, loc in env.ts.get('stale', ()):
+                run.violation('R-REF-HOLD', name, loc, 'released-reference-left-in-holder',
+                              'the session reference held by this object is released, but on a path to the end of the function the field keeps the old pointer and the object is '
+                              'not freed: its destructor releases the session a second time', ctx.path())
+            run.oblige('R-REF-HOLD', not env.ts.get('stale'), '%s:no-stale-reference-at-exit' % name)
+        for r in rels:
+            n += 1
+            run.instance('R-REF-HOLD', '%s: releases the reference held by a holder (%s)' % (name, short(r[0]['e']['a'][0])))
+        solve(f, Env(), on_event, on_exit, keys, R, key_fn=lambda e: tuple(x[0] for x in e.ts.get('stale', ())))
+    run.require(n >= (3 if run.cfg == 'base' else 2) or run.fixture_mode, 'R-REF-HOLD(stale): fewer than 3 releases of holder references found')
 
 
 def run_sess_evt(run, P, only=None):
